@@ -36,6 +36,10 @@ type SVal struct {
 	Unsafe bool       // derived through unsafe.Pointer: dereference needs a bounds obligation
 	Lo, Hi string     // provenance: valid offsets are Lo <= off < Hi (only when Unsafe)
 	Orig   types.Type // pointee type before unsafe casts
+
+	// a struct-typed FIELD read lazily in a contract expression: the value is the struct stored at
+	// this address in LazyMem (not the address itself)
+	LazyMem *Mem
 }
 
 func intV(s string, T types.Type) SVal  { return SVal{K: KInt, T: T, S: s} }
